@@ -24,9 +24,11 @@ class LevelCache;
 #include "../Utilities/cmdline.h"
 #include "../common/global_definitions.h"
 #include "test_cases.h"
+#include "../common/verif_trace.h"
 
 class GMGPolar
 {
+    VERIF_FRIEND
 public:
     /* ------------------------ */
     /* GMGPoloar initialization */
